@@ -91,8 +91,8 @@ QUICK = dict(
     unresolvable=dict(Ko=0, Kc=0, kmax=0, nmax=0),
 )
 QUICK_BOUNDS = ('sum of four focus groups — shapes: 4x4 star forms x <=1 fixed positional x <=1 keyword name (callee or foreign) x '
-                'callee <=1 named, bare outer; contexts: 30 statement contexts (incl. except / else / finally / for / while / match / conditional-expression bodies and 9 nested defs / lambdas whose own parameter of any kind shadows a star) x 6 routes x pristine/absent stars; taints: 37 '
-                'taint + 7 non-taint statements before/after the call; unresolvable: 3 kinds x 30 contexts')
+                'callee <=1 named, bare outer; contexts: 34 statement contexts (incl. loop bodies where a later statement precedes the next call, comprehension targets shadowing a star, except / else / finally / for / while / match / conditional-expression bodies and 9 nested defs / lambdas whose own parameter of any kind shadows a star) x 6 routes x pristine/absent stars; taints: 44 '
+                'taint + 7 non-taint statements before/after the call; unresolvable: 3 kinds x 34 contexts')
 THOROUGH = dict(
     shapes=dict(Ko=1, Kc=2, kmax=2, nmax=2),
     contexts=dict(Ko=1, Kc=1, kmax=1, nmax=0),
